@@ -202,3 +202,19 @@ func verifLemmaMaxBodyTight(c *channelInstance, m *Message, chunkSize int, chunk
 //@   ensures [C18:pop-frame] forall k uint32 :: k != reqID ==>
 //@           (in(k, s.handlers) == old(in(k, s.handlers)) && s.handlers[k] == old(s.handlers[k]))
 //@   ensures [C18:unlocked] !held(&s.handlersMu)
+
+// ---------------------------------------------------------------------------
+// C22: the server's session signature
+// ---------------------------------------------------------------------------
+
+//@ func (*SecureChannel).VerifySessionSignature
+//@   props C22
+//@   requires s != nil && s.cfg != nil
+//@   assigns uapolicy.sigCheckedKey(signature), uapolicy.sigCheckedLen(signature), any uapolicy.EncryptionAlgorithm.verifySignature
+//@   assigns elems(s.cfg.Certificate)
+//@   ensures [C22:none] s.cfg.SecurityMode == ua.MessageSecurityModeNone ==> result == nil
+//@   ensures [C22:verified] s.cfg.SecurityMode != ua.MessageSecurityModeNone && result == nil ==>
+//@           exists x *x509.Certificate :: x != nil && uapolicy.certSource(x) == arr(cert) && typeis(x.PublicKey, *rsa.PublicKey) &&
+//@           uapolicy.sigCheckedKey(signature) == dyn(x.PublicKey, *rsa.PublicKey) &&
+//@           uapolicy.sigCheckedLen(signature) == len(s.cfg.Certificate) + len(nonce)
+//@   canary ensures [C22:canary-always-ok] result == nil
